@@ -89,6 +89,10 @@ def generate(seed, tier):
             ops.append(op)
         elif k == "gv":
             ops.append(common.gen_gv_op(rng))
+            if rng.random() < 0.35:
+                # fs given explicitly and NOT a multiple of the slot rate: the devices must use gv.fs, not sps*R
+                R_ = rng.choice([1e9, 10e9, 2.5e9])
+                ops[-1] = {"op": "gv", "kw": {"R": R_, "fs": R_ * rng.choice([2.5, 3.5, 2.6, 7.3, 12.75])}}
         elif k == "bad":
             ops.append({"op": "bad", "what": rng.choice(["r0", "r_neg", "r_big", "r_list", "r_str", "T_neg", "T_str",
                                                          "R_neg", "R_list", "inc_int", "inc_bad", "inc_none", "in_es",
